@@ -10,7 +10,7 @@ import (
 )
 
 func init() {
-	register(&PropCheck{ID: "C14", Pkgs: []string{"./stats", "./api/ssm", "./service"}, Run: runC14})
+	register(&PropCheck{ID: "C14", Pkgs: []string{"./stats", "./api/ssm", "./service", "./netio"}, Run: runC14})
 }
 
 func lowerFirst(s string) string {
@@ -53,6 +53,44 @@ func runC14(p *Prog, r *Report) {
 	nb := lockBalance(p, r, r8, "stats", nil)
 	r.Count("lock_operations_checked", nb)
 	r.Floor(r8, 6)
+	// R9: the TCP relay hands the copy's two counts to the collector in the right roles (same
+	// analysis as C13-R3): both are uint64, so swapping them compiles and no test looks at the figures
+	{
+		sub := NewReport("C14", "quick")
+		c13R3(p, sub)
+		r.Rule("C14-R9", "TCP session figures keep their direction: "+sub.RuleDocs["C13-R3"])
+		for _, o := range sub.Obs {
+			o.Rule = "C14-R9"
+			r.Obs = append(r.Obs, o)
+		}
+		r.Floor("C14-R9", 3)
+	}
+	// R10: each UDP relay direction is recorded as that direction (both collector methods take the
+	// same argument types, so calling the other one compiles)
+	{
+		const r10 = "C14-R10"
+		r.Rule(r10, "UDP figures keep their direction: the function that forwards client packets to the NAT socket (the uplink of each relay variant, discovered by structure) records with the collector's uplink method only, the function that forwards replies to the client (the downlink) with the downlink method only")
+		n10 := 0
+		for _, site := range discoverRelays(p) {
+			for dir, fc := range map[string]*FuncCtx{"Uplink": site.Uplink, "Downlink": site.Downlink} {
+				if fc == nil {
+					continue
+				}
+				other := map[string]string{"Uplink": "Downlink", "Downlink": "Uplink"}[dir]
+				for _, c := range allCtxs(p, fc) {
+					for _, cs := range c.AllCalls() {
+						if cs.Fn == nil || !strings.HasPrefix(cs.Fn.Name(), "CollectUDPSession") {
+							continue
+						}
+						n10++
+						r.Check(!strings.HasSuffix(cs.Fn.Name(), other) && strings.HasSuffix(cs.Fn.Name(), dir), r10, fmt.Sprintf("%s:records-own-direction", fc.Name), cs.Pos(), "the "+strings.ToLower(dir)+" records "+strings.ToLower(dir)+" traffic", "the relay's "+strings.ToLower(dir)+" function records its packets and bytes with "+cs.Fn.Name()+": the traffic is charged to the opposite direction")
+					}
+				}
+			}
+		}
+		r.Count("udp_direction_sites", n10)
+		r.Floor(r10, 9)
+	}
 }
 
 func trafficFields(p *Prog) []string {
